@@ -135,6 +135,7 @@ def processLine (c : Case) (line : String) : Case :=
     let c := { c with nPure := c.nPure + 1 }
     if ok == "1" then c
     else if name == "default_zero" then c.flag "inverse" "a default-constructed generator returned a non-zero value"
+    else if name == "default_cdf_one" then c.flag "cdf" "GetCDF(0) of a default-constructed generator (one bin) is not exactly 1"
     else if name == "in_range" then c.flag "range" "a sample outside [min, max] in a random sequence"
     else if name == "assigned_cdf" then c.flag "cdf" "GetCDF of a generator that was assigned (over a live, a moved-from or itself) differs from the table of its parameters, or throws"
     else if name == "history_cdf" then c.flag "cdf" "GetCDF of a generator depends on which generators were constructed before it (same parameters, other class or other offsets in between): more than 1e-9 away from the first generator's table"
